@@ -226,5 +226,92 @@ pub proof fn lemma_appended(r0: Seq<char>, e: Seq<char>, s: Seq<char>, a: int, b
 //@after `result.append(&mut __e);`
         proof { lemma_appended(r1, e0, text@, part_start as int, i as int); assert(result@ =~= r1 + e0); }
 //@end
+
+// ---- cycle_reference, whole function: the public F4 entry point over a formula text ----
+#[verifier::external_body] pub struct Locale { _o: u8 }
+#[verifier::external_body] pub struct Language { _o: u8 }
+pub mod token {
+    // context shell (D5): only "is this token a reference or a range" is looked at
+    pub enum TokenType { Reference { o: u8 }, Range { o: u8 }, Other }
+}
+//@type base/src/expressions/lexer/util.rs MarkedToken
+/// ASSUMED contract of the formula lexer (it is not under contract as a whole; unit lexpanic proves its cursor stays inside the text):
+/// token spans lie inside the text and are ordered
+pub open spec fn spans_ok(ts: Seq<MarkedToken>, n: int) -> bool {
+    &&& forall|k: int| 0 <= k < ts.len() ==> 0 <= (#[trigger] ts[k]).start <= ts[k].end <= n
+    &&& forall|j: int, k: int| 0 <= j < k < ts.len() ==> (#[trigger] ts[j]).end <= (#[trigger] ts[k]).start
+}
+#[verifier::external_body]
+pub fn get_tokens_with_locale(formula: &str, locale: &Locale, language: &Language) -> (r: Vec<MarkedToken>)
+    ensures spans_ok(r@, formula@.len() as int)
+{ unimplemented!() }
+// text <-> character vector conversions and one iterator-adapter count (outside Verus), read with their documented meaning
+#[verifier::external_body]
+pub fn shim_chars(value: &str) -> (r: Vec<char>) ensures r@ == value@ { value.chars().collect() }
+#[verifier::external_body]
+pub fn shim_string(cs: &[char]) -> (r: String) ensures r@ == cs@ { cs.iter().collect() }
+#[verifier::external_body]
+pub fn shim_leading_whitespace(cs: &[char]) -> (r: usize) ensures r <= cs@.len() { cs.iter().take_while(|c| c.is_whitespace()).count() }
+/// std fact: a Vec<char> never holds more than isize::MAX / 4 elements (allocation limit), so small additions to its length cannot overflow
+#[verifier::external_body]
+pub proof fn axiom_vec_char_len(v: &Vec<char>) ensures v@.len() <= (isize::MAX as int) / 4 {}
+#[verifier::external_body]
+pub fn shim_to_string(s: &str) -> (r: String) ensures r@ == s@ { s.to_string() }
+
+//@fn base/src/expressions/lexer/util.rs cycle_reference
+//@attr
+#[verifier::loop_isolation(false)]
+//@spec
+    requires value@.len() + 16 <= i32::MAX
+    ensures r matches Ok(t) ==> norm(t.0@) =~= norm(value@)     // C34: only '$' markers and letter case of the formula text change
+//@rewrite `) -> Result<(String, i32, i32), String> {` => `) -> (r: Result<(String, i32, i32), String>) {`
+//@afterstmt `let mut result: Vec<char> = `
+    let ghost mut rest: Seq<char> = Seq::empty();
+    proof { assert(body@.take(0) =~= Seq::<char>::empty()); }
+//@rewrite* `value.to_string()` => `shim_to_string(value)`
+//@rewrite* `let chars: Vec<char> = value.chars().collect();` => `let chars: Vec<char> = shim_chars(value);`
+//@rewrite* `let body_str: String = body.iter().collect();` => `let body_str: String = shim_string(body);`
+//@rewrite* `let new_value: String = result.iter().collect();` => `let new_value: String = shim_string(result.as_slice());`
+//@rewrite* `token_text.iter().take_while(|c| c.is_whitespace()).count()` => `shim_leading_whitespace(token_text)`
+//@rewrite* `result.extend(cycle_token_text(token_text));` => `let mut __e = cycle_token_text(token_text); let ghost e0 = __e@; result.append(&mut __e);`
+//@loop 1
+        invariant
+            __k <= __toks@.len(), spans_ok(__toks@, body@.len() as int), body@ =~= chars@.subrange(1, chars@.len() as int), chars@ == value@, chars@.len() >= 1, chars@[0] == '=',
+            (copied as int) <= body@.len(), forall|j: int| __k <= j < __toks@.len() ==> (copied as int) <= (#[trigger] __toks@[j]).start,
+            result@ =~= seq!['='] + rest, norm(rest) =~= norm(body@.take(copied as int)),
+            (last_cycled_end as int) <= result@.len(),
+        decreases __toks@.len() - __k
+//@before `first_cycled_start = Some(`
+            proof { axiom_vec_char_len(&result); }
+//@before `result.extend_from_slice(&body[copied..token_start - 1]);`
+        proof { assert((copied as int) <= __toks@[__k - 1].start); }
+        let ghost r0 = rest;
+//@after `result.extend_from_slice(&body[copied..token_start - 1]);`
+        proof {
+            rest = r0 + body@.subrange(copied as int, token_start - 1);
+            lemma_appended(r0, body@.subrange(copied as int, token_start - 1), body@, copied as int, token_start - 1);
+        }
+//@after `result.append(&mut __e);`
+        proof {
+            let r1 = rest;
+            rest = r1 + e0;
+            lemma_appended(r1, e0, body@, token_start - 1, token_end - 1);
+        }
+//@before `result.extend_from_slice(&body[copied..]);`
+    let ghost r2 = rest;
+//@after `result.extend_from_slice(&body[copied..]);`
+    proof {
+        rest = r2 + body@.subrange(copied as int, body@.len() as int);
+        lemma_appended(r2, body@.subrange(copied as int, body@.len() as int), body@, copied as int, body@.len() as int);
+        assert(body@.take(body@.len() as int) =~= body@);
+        assert(value@ =~= seq!['='] + body@);
+        lemma_norm_add(seq!['='], body@);
+        lemma_norm_add(seq!['='], rest);
+        assert(result@ =~= seq!['='] + rest);
+        assert(norm(rest) =~= norm(body@));
+        assert(norm(result@) =~= norm(value@));
+    }
+//@rewrite* `for marked in get_tokens_with_locale(&body_str, locale, language) {` => `let __toks = get_tokens_with_locale(&body_str, locale, language); let mut __k: usize = 0; while __k < __toks.len() { let marked = &__toks[__k]; __k += 1;`
+//@end
 } // verus!
 fn main() {}
